@@ -39,6 +39,8 @@ Callers (third round): in Merge3Merger._do_merge_contents the content winner of 
 _lca_multi_way(.., allow_overriding_lca=False), unguarded; of a plain merge only by _three_way or by the constant 'this'
 under `base_pair == other_pair`; the content-hash comparison in _entries_lca passes allow_overriding_lca=False too;
 _entries3 restricts the prefetch of THIS's entries only by paths obtained from this_tree.find_related_paths_across_trees.
+Fourth round: one-value-per-lca — comprehensions over the LCA trees/paths in _do_merge_contents and _entries_lca have no `if` filter.
+this-prefetch-by-other-paths — the prefetch of THIS's entries in _entries3 resolves the interesting files with trees=[other_tree].
 Does not decide: anything about trees; more than 3 LCAs is covered by the lint argument (only 0 / 1 / >=2 distinct
 filtered LCA values are distinguishable, all realised at 3 LCAs), not by enumeration.
 """
@@ -301,6 +303,21 @@ def run(ctx):
         sf = [k.value for k in c.keywords if k.arg == "specific_files"] + list(c.args[:1])
         ok_ = not sf or const_value(sf[0], 0) is None or norm(sf[0]) in translated or (isinstance(sf[0], ast.Call) and call_attr(sf[0]) == "find_related_paths_across_trees" and call_recv(sf[0]) == "self.this_tree")
         ctx.check("this-values-under-this-paths", w3, ok_, "the prefetch of THIS's entries is restricted by paths translated into THIS's namespace (or not restricted)", construct=norm(c)[:100], message=f"_entries3 prefetches THIS's inventory entries with specific_files={norm(sf[0]) if sf else None}, paths that are not translated into THIS's namespace: a file THIS renamed is missing from the prefetch, its name/parent/executable are taken as absent and the name decision lets the unchanged OTHER side win against THIS's rename")
+    # ---- fourth round: one value per LCA reaches _lca_multi_way; THIS's entries are prefetched by OTHER's paths too --------
+    n_lca_comp = 0
+    for q_ in ("Merge3Merger._do_merge_contents", "Merge3Merger._entries_lca"):
+        f_ = repo.func(FILE, q_)
+        for comp in ast.walk(f_):
+            if isinstance(comp, (ast.ListComp, ast.GeneratorExp, ast.SetComp)) and any("lca" in norm(g_.iter) for g_ in comp.generators):
+                n_lca_comp += 1
+                filt = [norm(i_)[:60] for g_ in comp.generators for i_ in g_.ifs]
+                ctx.check("one-value-per-lca", f"{FILE}:{q_}", not filt, "the per-LCA values handed to the decision functions are built without a filter: an LCA that lacks the file contributes its own (None) value", construct="; ".join(filt), message=f"{q_} filters the per-LCA values (`{filt[0] if filt else ''}`): an LCA in which the file is absent no longer counts as a distinct base value, the criss-cross decision collapses to a plain three-way against the remaining LCA — THIS's modification against OTHER's deletion is decided 'other' and the file is deleted without a conflict")
+    ctx.require(n_lca_comp >= 2, f"{FILE}: only {n_lca_comp} per-LCA comprehensions found (hand-confirmed: >= 3)")
+    fe3 = repo.func(FILE, "Merge3Merger._entries3")
+    rel = [c for c in calls_in(fe3) if call_attr(c) == "find_related_paths_across_trees" and "this_tree" in (call_recv(c) or "")]
+    for c in rel:
+        kw_t = [k for k in c.keywords if k.arg == "trees"]
+        ctx.check("this-prefetch-by-other-paths", f"{FILE}:Merge3Merger._entries3", bool(kw_t) and "other_tree" in norm(kw_t[0].value), "THIS's entries are looked up through the interesting paths as OTHER names them too (trees=[other_tree]): a file THIS renamed is found by its id", construct=norm(c)[:90], message=f"`{norm(c)[:80]}` resolves the interesting files in THIS alone: a file named by its OTHER/BASE path that THIS has renamed is missing from the prefetch, its THIS name/parent/exec reach the decision as None and THIS's rename is undone although OTHER did not touch the name")
 
 
 def _canon(p):
@@ -317,6 +334,7 @@ def _canon(p):
 FLOOR = 20
 
 MUTANTS = [
+    Mutant("LCAs without the file dropped from the content decision", FILE, "                for tree, path in zip(self._lca_trees, lca_paths, strict=False)\n            ]\n            winner = self._lca_multi_way(", "                for tree, path in zip(self._lca_trees, lca_paths, strict=False)\n                if path is not None\n            ]\n            winner = self._lca_multi_way(", expect="one-value-per-lca"),
     Mutant("criss-cross content decided as a scalar", FILE, "                this_pair,\n                allow_overriding_lca=False,\n            )\n        else:\n            base_pair = contents_pair(self.base_tree, base_path)\n", "                this_pair,\n            )\n        else:\n            base_pair = contents_pair(self.base_tree, base_path)\n", expect="content-decided-by-decision-functions"),
     Mutant("THIS prefetch restricted by untranslated paths", FILE, "                    specific_files=this_interesting_files\n", "                    specific_files=self.interesting_files\n", expect="this-values-under-this-paths"),
     Mutant(
